@@ -206,9 +206,7 @@ theorem step_stepOK (d d' : PDesc) (op : Op) (h : step d op = .ok (some d')) : S
         exact hnew
   | wait c now =>
     simp only [step, waitAndRegister] at h
-    split at h
-    · cases h
-    · exact stepOK_of_parts_eq (addOrUpdateOwner_parts (by simpa using h))
+    exact stepOK_of_parts_eq (addOrUpdateOwner_parts (by simpa using h))
   | reconcileOwned c now =>
     simp only [step, reconcileOwned] at h
     split at h
@@ -291,10 +289,8 @@ theorem other_ops_keep_states (d d' : PDesc) (op : Op) (h : step d op = .ok (som
     exact Or.inl ⟨q, hq, rfl, rfl⟩
   | wait c now =>
     simp only [step, waitAndRegister] at h
-    split at h
-    · cases h
-    · intro q hq; rw [addOrUpdateOwner_parts (by simpa using h)] at hq
-      exact Or.inl ⟨q, hq, rfl, rfl⟩
+    intro q hq; rw [addOrUpdateOwner_parts (by simpa using h)] at hq
+    exact Or.inl ⟨q, hq, rfl, rfl⟩
   | reconcileOthers c now =>
     simp only [step, reconcileOthers] at h
     split at h
@@ -386,9 +382,7 @@ theorem only_reconcileOthers_deletes (d d' : PDesc) (op : Op) (h : step d op = .
     exact ⟨p, by rw [removeOwner_parts (by simpa using h)]; exact hp, rfl⟩
   | wait c now =>
     simp only [step, waitAndRegister] at h
-    split at h
-    · cases h
-    · exact ⟨p, by rw [addOrUpdateOwner_parts (by simpa using h)]; exact hp, rfl⟩
+    exact ⟨p, by rw [addOrUpdateOwner_parts (by simpa using h)]; exact hp, rfl⟩
   | reconcileOwned c now =>
     obtain ⟨_, _, _, _, _, rfl⟩ := reconcileOwned_guard d d' c now (by simpa [step] using h)
     exact setPart_keeps_ids hp
